@@ -190,7 +190,7 @@ def to_coq(c, o):
     if k == 'composite':
         return (f"(CComposite {cstr(c['name'])} {cstrs(c['involved'])} {copt(c['lead_readout'], cstrs)} {copt(c['lead_gate'], cstrs)} "
                 f"{clist([ce(e) for e in c['excl_e']])} {cstrs(c['excl_q'])} {cbool(c['only'])} "
-                f"{clist(['(%s, %s)' % (cstr(q), cz(i)) for q, i in c['index']])} {cobs(o)})")
+                f"{clist(['(%s, %s)' % (cstr(q), cz(i)) for q, i in c['index']])} {cobs(o)} {cbool(o.get('base_unchanged', True))})")
     raise ValueError(k)
 
 
